@@ -67,7 +67,7 @@ def seeded_mutants():
         if not meta.get('detected'):
             continue
         for prop, c in meta['checks'].items():
-            if c['exit'] == 1 and prop in unit_of:
+            if c['exit'] == 1 and prop in unit_of and prop == meta.get('breaks_property'):
                 names = [v for v in c['violations'] if not v.startswith('kani:')]
                 if not names:
                     continue
